@@ -187,7 +187,11 @@ theorem cmdWriteTracks_safe (f : WriteFlags) (is : List Instance) : Safe (cmdWri
     simp only [hp] at h
     cases hw : playWrite d is' with
     | error e' => simp [hw] at h; subst h; exact playWrite_safe d is' e' hw
-    | ok calls => simp [hw] at h
+    | ok calls =>
+      simp only [hw] at h
+      split at h
+      · simp [throw, throwThe, MonadExceptOf.throw] at h; subst h; rfl
+      · simp at h
 
 /-- **`crd write` never crashes and never hangs**, for ANY instances document, attribute file and flags -/
 theorem cmdWrite_safe (f : WriteFlags) (attrs : List RawAttr) (rs : List RawInstance) : Safe (cmdWrite f attrs rs) := by
